@@ -54,7 +54,10 @@ def _body(cs, o0, o1, o2, k, reps):
                 for _ in range(xsusp):
                     await Suspend(W)
 
-        deco = cm("x", func="kw", self="kw2")
+        try:
+            deco = cm("x", func="kw", self="kw2")
+        except TypeError as e:
+            return finish(fail("decorator:manager-cannot-be-created-with-these-arguments", str(e)), True, ("deco", kind, "creation failed"))
     else:
 
         class Deco(A.ContextDecorator):
